@@ -41,7 +41,7 @@ type c17run struct {
 }
 
 // httpShapes: ways in which the upstream stand-in dresses the same body.
-var httpShapes = []string{"utf8", "no-charset", "octet-stream", "gzip", "chunked-small", "no-content-type"}
+var httpShapes = []string{"utf8", "no-charset", "octet-stream", "gzip", "chunked-small", "no-content-type", "conditional-get"}
 
 // nonEmptyLines is the specification: the list must hold exactly these.
 func nonEmptyLines(body string) []string {
@@ -333,7 +333,7 @@ func checkC17(e *Env) {
 		out := filepath.Join(dir, "internal", "wordlist")
 		os.MkdirAll(out, 0755)
 		defer os.RemoveAll(dir)
-		if ri%2 == 1 {
+		if ri%2 == 1 || httpShapes[ri%len(httpShapes)] == "conditional-get" {
 			// the target files already exist and are longer than what will be written: a tool
 			// that does not truncate leaves a tail behind
 			old := "// Code generated earlier; DO NOT EDIT.\n\npackage wordlist\n\nvar Old = []string{\n" + strings.Repeat("\t\"stale\",\n", 150000) + "}\n"
@@ -380,6 +380,21 @@ func checkC17(e *Env) {
 			shape := httpShapes[ri%len(httpShapes)]
 			httpShapeSeen.Inc(shape)
 			switch shape {
+			case "conditional-get":
+				// an upstream that honours conditional requests: the file was last modified in
+				// 2020, so a client that asks "modified since <some later time>?" is told 304
+				lm := time.Date(2020, 1, 1, 0, 0, 0, 0, time.UTC)
+				w.Header().Set("Last-Modified", lm.Format(http.TimeFormat))
+				w.Header().Set("ETag", `"`+itoa(len(body))+`"`)
+				w.Header().Set("Content-Type", "text/plain; charset=utf-8")
+				if ims, err := http.ParseTime(rq.Header.Get("If-Modified-Since")); err == nil && !lm.After(ims) {
+					w.WriteHeader(http.StatusNotModified)
+					return
+				}
+				if inm := rq.Header.Get("If-None-Match"); inm != "" && inm == `"`+itoa(len(body))+`"` {
+					w.WriteHeader(http.StatusNotModified)
+					return
+				}
 			case "utf8":
 				w.Header().Set("Content-Type", "text/plain; charset=utf-8")
 			case "no-charset":
@@ -616,7 +631,7 @@ func checkC17(e *Env) {
 	e.WriteEvidence("exploration", map[string]any{
 		"evaluations":                 pairs,
 		"distinct_nontrivial":         dist.Len(),
-		"rule":                        "a case is one (target file, upstream body) pair; one run of the tool (built from the tree with the verif fetch-redirect hook, run in a scratch directory against a loopback HTTP server operated by the parent) yields ten pairs; inputs: the canonical lists, and seeded LF-separated files of letters and combining marks (Latin, Greek, Cyrillic, Hebrew, Arabic, Devanagari, Thai, Hangul jamo and syllables, kana, CJK incl. plane 2, ligatures, full-width and mathematical letters; marks also leading, doubled and in non-canonical order; Go keywords; words up to 3000 letters) with 0, 1, 2, 17, 300, 2048 and 5000 words, with and without trailing newline and with blank lines at start, middle, end and in runs; every generated file is parsed and type-checked (all ten as one package), its literals compared byte-for-byte with the non-empty input lines, its variable name compared with the committed file's, the request log compared with the ten expected paths; runs with ten 2048-word inputs are additionally rebuilt into a scratch copy of the repository whose API must emit, per language, the words served under that language's file name (when it does not, the same words written into the package by the harness are observed as a control: the tool is blamed only when the control is clean); the upstream stand-in varies how it dresses the same bytes from run to run (Content-Type with or without a charset, octet-stream, no Content-Type, gzip content encoding, small chunks); fault runs in which the first download of one to three files is cut inside the body (full Content-Length declared): a tool that gives up is not judged, one that reports success is judged like any other run; non-trivial = every pair; distinct by (file, body)",
+		"rule":                        "a case is one (target file, upstream body) pair; one run of the tool (built from the tree with the verif fetch-redirect hook, run in a scratch directory against a loopback HTTP server operated by the parent) yields ten pairs; inputs: the canonical lists, and seeded LF-separated files of letters and combining marks (Latin, Greek, Cyrillic, Hebrew, Arabic, Devanagari, Thai, Hangul jamo and syllables, kana, CJK incl. plane 2, ligatures, full-width and mathematical letters; marks also leading, doubled and in non-canonical order; Go keywords; words up to 3000 letters) with 0, 1, 2, 17, 300, 2048 and 5000 words, with and without trailing newline and with blank lines at start, middle, end and in runs; every generated file is parsed and type-checked (all ten as one package), its literals compared byte-for-byte with the non-empty input lines, its variable name compared with the committed file's, the request log compared with the ten expected paths; runs with ten 2048-word inputs are additionally rebuilt into a scratch copy of the repository whose API must emit, per language, the words served under that language's file name (when it does not, the same words written into the package by the harness are observed as a control: the tool is blamed only when the control is clean); the upstream stand-in varies how it dresses the same bytes from run to run (Content-Type with or without a charset, octet-stream, no Content-Type, gzip content encoding, small chunks, an upstream that honours conditional requests and whose files are older than anything on the local disk); fault runs in which the first download of one to three files is cut inside the body (full Content-Length declared): a tool that gives up is not judged, one that reports success is judged like any other run; non-trivial = every pair; distinct by (file, body)",
 		"samples":                     smp.List(),
 		"tool_runs":                   obs.Get("tool_runs"),
 		"observations":                obs.Map(),
